@@ -10,6 +10,7 @@ Nothing is executed: package functions are interpreted from their ast (inlined, 
 numpy/scipy calls go through the transfer table below, each entry a homogeneity fact.
 """
 import ast
+import os
 import operator
 from fractions import Fraction as Fr
 
@@ -604,6 +605,11 @@ def t_full(args, kw, node):
     return withrank(v, rk)
 
 
+def t_full_like(args, kw, node):
+    v = num(args[1]) if len(args) > 1 else num(kw.get("fill_value", Cst(0)))
+    return withrank(v, getattr(_a(args), "rank", None))
+
+
 def t_dot(args, kw, node):
     return matmul(args[0], args[1])
 
@@ -710,11 +716,14 @@ def t_where(args, kw, node):
         br = [num(args[1]), num(args[2])]
     r = join(br[0], br[1])
     rk = None
+    unknown = False
     for x in args:
         rr = getattr(num(x), "rank", None)
         if rr is not None:
             rk = rr if rk is None else max(rk, rr)
-    return withrank(r, rk)
+        elif not isinstance(x, Cst):
+            unknown = True       # an operand of unknown rank may broadcast the result to any rank
+    return withrank(r, None if unknown else rk)
 
 
 def t_cov(args, kw, node):
@@ -1003,7 +1012,7 @@ NP = {
     "dot": t_dot, "matmul": t_dot, "kron": t_kron, "vstack": t_stack, "hstack": t_stack, "concatenate": t_stack,
     "stack": t_stack, "column_stack": t_stack, "block": lambda a, k, n: withrank(num(a[0]), 2), "row_stack": t_stack, "array": t_array, "asarray": t_array, "zeros": t_zero,
     "empty": t_zero, "zeros_like": t_zeros_like, "empty_like": t_zeros_like, "ones": t_ones, "ones_like": t_ones_like,
-    "full": t_full, "eye": t_eye, "identity": t_eye, "diag": t_diag, "sqrt": t_sqrt, "abs": t_abs, "absolute": t_abs,
+    "full": t_full, "full_like": t_full_like, "ascontiguousarray": t_array, "asanyarray": t_array, "asfortranarray": t_array, "eye": t_eye, "identity": t_eye, "diag": t_diag, "sqrt": t_sqrt, "abs": t_abs, "absolute": t_abs,
     "real": t_same, "imag": t_same, "conj": t_same, "conjugate": t_same, "transpose": t_same, "squeeze": t_same,
     "log": t_log, "log10": t_log, "log2": t_log, "exp": t_exp, "arccos": t_arccos, "arcsin": t_arccos, "cos": t_arccos, "sin": t_arccos,
     "angle": lambda a, k, n: Deg({()}, getattr(_a(a), "rank", None)),
@@ -1303,6 +1312,19 @@ def exec_rmw(s, t, fr):
 
 
 def exec_stmt(s, fr):
+    if TRACE_FN and fr.qual.endswith(TRACE_FN):
+        _exec_stmt(s, fr)
+        import sys
+        names = sorted({n.id for n in ast.walk(s) if isinstance(n, ast.Name) and isinstance(n.ctx, ast.Store)})
+        print(f"TRACE {fr.qual}:{getattr(s, 'lineno', 0)} " + ", ".join(f"{n}={fr.env.get(n)!r}"[:120] for n in names), file=sys.stderr)
+        return
+    _exec_stmt(s, fr)
+
+
+TRACE_FN = os.environ.get("VERIF_TRACE_FN", "")
+
+
+def _exec_stmt(s, fr):
     if isinstance(s, (ast.Assign, ast.AugAssign)) and CTX.loopdepth:
         t = _rmw_target(s)
         if t is not None and isinstance(fr.env.get(t.value.id), (Deg, Any_)) and exec_rmw(s, t, fr):
@@ -2039,6 +2061,15 @@ def arrmethod(b, name, args, kw, node):
 
 def call_ext(n, args, kw, e, fr):
     key = None
+    if n == "numpy.copyto" and len(args) >= 2 and isinstance(e, ast.Call) and e.args and isinstance(e.args[0], ast.Name) and fr is not None:
+        # in-place conditional copy: dst <- where(mask, src, dst)
+        CTX.used.add("numpy.copyto")
+        fr.env[e.args[0].id] = t_where([kw.get("where", BOOL), args[1], args[0]], {}, e) if "where" in kw else withrank(num(args[1]), getattr(num(args[0]), "rank", None))
+        return Cst(None)
+    if n == "numpy.ndindex":
+        CTX.used.add("numpy.ndindex")
+        dims = args[0].items if len(args) == 1 and isinstance(args[0], (Tup, Lst)) else args
+        return Lst([], Tup([Deg({()}, 0) for _ in dims]))
     if n in CTX.overrides:
         CTX.used.add(n + " (property-specific model)")
         return CTX.overrides[n](args, kw, e)
